@@ -130,6 +130,8 @@ def run(ck: Checker):
     check_wait_config(ck, 'C09-4', ck.repo.func(WORKER, 'Worker.__init__'), param='batch_wait_time', attr='self.batch_wait_time')
     # ---------------------------------------------------------------- C09-3
     check_one_destination(ck, 'C09-3')
+    ck.rule('C09-9', 'the preprocess hook is looked up on the worker object when the service loop starts, not cached by Worker.__init__ (ORIGIN)', minimum=2)
+    check_preprocess_lookup(ck, 'C09-9')
     ck.rule('C09-8', 'the batch buffer can hold a whole batch: it is created with at least `batch_size` slots (a smaller buffer makes the collector wait for room while call() waits for the batch to fill: every batch is cut short at the buffer size) (LINEAR)')
     from .linear import linear_form
 
@@ -311,7 +313,18 @@ def check_deadline_shape(ck: Checker, rid: str, f: FuncInfo, *, queue: str, wait
                     p = path_avoiding(cfg, [cfg.entry], {dn.id}, avoid={fn.id})
                     if p is not None:
                         probs.append(f'the deadline `{v}` (L{dn.lineno}) is computed before the first element was taken: waiting for the first element eats the batch wait time')
-        # max(0, …) or equivalent so that a passed deadline does not raise ValueError
+        # a deadline that has passed gives a negative remaining time: the get must not fail on it.  queue.Queue raises
+        # ValueError for a negative timeout, so must a SingleLane that validates its argument: then the caller clamps
+        # (`max(0, t)`); a SingleLane that just hands the value to Condition.wait tolerates it
+        clamped = isinstance(t, ast.Call) and dotted(t.func) == 'max' and any(isinstance(a_, ast.Constant) and a_.value == 0 for a_ in t.args)
+        rejects = True  # a queue of the standard library (or unknown)
+        if queue == BUF:
+            from .common import QUEUES
+
+            g_ = ck.repo.cls(QUEUES, 'SingleLane').method('get')
+            rejects = any(isinstance(r_, ast.Raise) and isinstance(i_, ast.If) and 'timeout' in norm_text(i_.test) and any(isinstance(o_, (ast.Lt, ast.LtE)) for c_ in ast.walk(i_.test) if isinstance(c_, ast.Compare) for o_ in c_.ops) for i_ in ast.walk(g_.node) if isinstance(i_, ast.If) for r_ in i_.body)
+        if rejects and not clamped:
+            probs.append(f'the remaining time `{norm_text(t)}` handed to the get at L{n.lineno} can be negative (the deadline has passed) and the queue rejects a negative timeout with ValueError: the thread that assembles the batch dies, the partial batch never reaches call(), its requests are never answered')
     # Empty leaves the loop
     for n, c in gets_in:
         for e in cfg.succ[n.id]:
@@ -423,6 +436,30 @@ def check_queue_locks(ck: Checker, rid: str):
         if cname == '_SimpleThreadQueue' and 'self._rlock' not in inst:
             probs.append('`_rlock` is not created per instance in __init__')
         ck.ob(rid, init or cls.node.name, (cls.node.lineno, cname), not probs, '; '.join(probs) if probs else ('`_rlock` is created per queue in __init__' if cname == '_SimpleThreadQueue' else 'the reader / writer locks of multiprocessing.queues.SimpleQueue are kept'))
+
+
+def check_preprocess_lookup(ck: Checker, rid: str):
+    """The optional `preprocess` hook is looked up on the worker object when a service loop starts -- after the constructor
+    of the user's subclass has completed -- not cached by Worker.__init__: a subclass may install the hook as an instance
+    attribute after `super().__init__()` ("an attribute that is a free-standing function"); a value cached earlier is None
+    for it, rejected elements then reach call() and whole batches fail."""
+    mod = ck.repo.module(WORKER)
+    init = mod.func('Worker.__init__')
+    cached = {}
+    for n in walk_shallow_func(init.node):
+        if isinstance(n, ast.Assign) and 'preprocess' in norm_text(n.value) and isinstance(n.targets[0], ast.Attribute) and is_name(n.targets[0].value, 'self'):
+            cached[n.targets[0].attr] = n
+    for q in ('Worker._start_single.get_input', 'Worker._build_input_batches'):
+        f = mod.func(q)
+        defs = [n for n in walk_shallow_func(f.node) if isinstance(n, ast.Assign) and len(n.targets) == 1 and is_name(n.targets[0], 'preprocess')]
+        ck.need(defs, f'{f.key}: the lookup of the preprocess hook was not found')
+        v = defs[0].value
+        ok = (isinstance(v, ast.Call) and dotted(v.func) == 'getattr' and len(v.args) >= 2 and is_name(v.args[0], 'self') and isinstance(v.args[1], ast.Constant) and v.args[1].value == 'preprocess') or dotted(v) == 'self.preprocess'
+        src = dotted(v)
+        why = ''
+        if not ok and src and src.startswith('self.') and src.split('.', 1)[1] in cached:
+            why = f' — `{src}` is set by Worker.__init__ (L{cached[src.split(".", 1)[1]].lineno}), before a subclass constructor can install the hook'
+        ck.ob(rid, f, defs[0], ok, 'the hook is looked up on the worker object when the loop starts' if ok else f'the hook is taken from `{norm_text(v)[:50]}`, not looked up on the worker object when the loop starts{why}: a hook installed as an instance attribute after super().__init__() is ignored, elements it would reject or transform reach call() raw')
 
 
 def check_one_destination(ck: Checker, rid: str):
